@@ -2,7 +2,7 @@
    now stated for the insert / isort of Model/C08Fingerprint.v, with antisymmetry required only on the
    elements of the collection (unique keys), and instantiated with the (file, name) order on commands. *)
 From Coq Require Import String Ascii List Arith Lia Bool Permutation Sorted.
-Require Import TT.Model.Str TT.Model.C08Fingerprint.
+Require Import TT.Model.Str TT.Model.C08Fingerprint TT.Proofs.C08FpProofs.
 Import ListNotations.
 
 (* Sorting makes the hash input independent of the enumeration order: any two enumerations of the same
@@ -95,35 +95,39 @@ Proof. intros ->. apply str_eqb_true. reflexivity. Qed.
 Lemma str_eqb_sym_false (a b : str) : a <> b -> str_eqb b a = false.
 Proof. intros H. apply str_eqb_false. intro E. apply H. symmetry. exact E. Qed.
 
-Lemma cmd_leb_total (a b : command) : cmd_leb a b = true \/ cmd_leb b a = true.
-Proof. unfold cmd_leb. destruct (str_eqb (c_file a) (c_file b)) eqn:E.
+Section Cmd.
+Variable root : str.
+Notation cfile k := (rel_path root (c_file k)).
+
+Lemma cmd_leb_total (a b : command) : cmd_leb root a b = true \/ cmd_leb root b a = true.
+Proof. unfold cmd_leb. destruct (str_eqb (cfile a) (cfile b)) eqn:E.
   - apply str_eqb_true in E. rewrite (str_eqb_sym_true _ _ E). apply str_leb_total.
   - apply str_eqb_false in E. rewrite (str_eqb_sym_false _ _ E). apply str_leb_total. Qed.
 
-Lemma cmd_leb_trans (a b c : command) : cmd_leb a b = true -> cmd_leb b c = true -> cmd_leb a c = true.
+Lemma cmd_leb_trans (a b c : command) : cmd_leb root a b = true -> cmd_leb root b c = true -> cmd_leb root a c = true.
 Proof. unfold cmd_leb.
-  destruct (str_eqb (c_file a) (c_file b)) eqn:E1; destruct (str_eqb (c_file b) (c_file c)) eqn:E2.
+  destruct (str_eqb (cfile a) (cfile b)) eqn:E1; destruct (str_eqb (cfile b) (cfile c)) eqn:E2.
   - apply str_eqb_true in E1. apply str_eqb_true in E2.
-    assert (H : str_eqb (c_file a) (c_file c) = true) by (apply str_eqb_true; rewrite E1; exact E2).
+    assert (H : str_eqb (cfile a) (cfile c) = true) by (apply str_eqb_true; rewrite E1; exact E2).
     rewrite H. apply str_leb_trans.
   - apply str_eqb_true in E1. apply str_eqb_false in E2.
-    assert (H : str_eqb (c_file a) (c_file c) = false).
+    assert (H : str_eqb (cfile a) (cfile c) = false).
     { apply str_eqb_false. rewrite E1. exact E2. }
     rewrite H. intros _ H2. rewrite E1. exact H2.
   - apply str_eqb_false in E1. apply str_eqb_true in E2.
-    assert (H : str_eqb (c_file a) (c_file c) = false).
+    assert (H : str_eqb (cfile a) (cfile c) = false).
     { apply str_eqb_false. rewrite <- E2. exact E1. }
     rewrite H. intros H1 _. rewrite <- E2. exact H1.
   - apply str_eqb_false in E1. apply str_eqb_false in E2.
-    intros H1 H2. destruct (str_eqb (c_file a) (c_file c)) eqn:E3.
+    intros H1 H2. destruct (str_eqb (cfile a) (cfile c)) eqn:E3.
     + apply str_eqb_true in E3. exfalso. apply E1. apply str_leb_antisym; [exact H1|].
       rewrite E3. exact H2.
     + eapply str_leb_trans; eauto. Qed.
 
-Definition cmd_key (k : command) : str * str := (c_file k, c_name k).
+Definition cmd_key (k : command) : str * str := (cfile k, c_name k).
 
-Lemma cmd_leb_antisym_keys (a b : command) : cmd_leb a b = true -> cmd_leb b a = true -> cmd_key a = cmd_key b.
-Proof. unfold cmd_leb, cmd_key. destruct (str_eqb (c_file a) (c_file b)) eqn:E.
+Lemma cmd_leb_antisym_keys (a b : command) : cmd_leb root a b = true -> cmd_leb root b a = true -> cmd_key a = cmd_key b.
+Proof. unfold cmd_leb, cmd_key. destruct (str_eqb (cfile a) (cfile b)) eqn:E.
   - apply str_eqb_true in E. rewrite (str_eqb_sym_true _ _ E).
     intros H1 H2. f_equal; [exact E|]. apply str_leb_antisym; auto.
   - apply str_eqb_false in E. rewrite (str_eqb_sym_false _ _ E).
@@ -138,10 +142,12 @@ Proof. induction l as [|x l IH]; intros Hnd a b Ha Hb E; [destruct Ha|].
 
 (* the command part of the fingerprint does not depend on the discovery order *)
 Theorem fp_cmds_order_independent : forall a a' : analysis,
-  NoDup (map cmd_key (a_cmds a)) -> Permutation (a_cmds a) (a_cmds a') -> fp_cmds a = fp_cmds a'.
+  NoDup (map cmd_key (a_cmds a)) -> Permutation (a_cmds a) (a_cmds a') -> fp_cmds root a = fp_cmds root a'.
 Proof. intros a a' Hnd Hp. unfold fp_cmds. f_equal. f_equal.
   apply isort_perm_invariant; [exact cmd_leb_total|exact cmd_leb_trans| |exact Hp].
   intros x y Hx Hy H1 H2. eapply nodup_key_inj; eauto. apply cmd_leb_antisym_keys; auto. Qed.
+
+End Cmd.
 
 (* ---- structs sorted by name ---- *)
 Lemma struct_leb_total (a b : struct) : struct_leb a b = true \/ struct_leb b a = true.
@@ -149,9 +155,9 @@ Proof. apply str_leb_total. Qed.
 Lemma struct_leb_trans (a b c : struct) : struct_leb a b = true -> struct_leb b c = true -> struct_leb a c = true.
 Proof. apply str_leb_trans. Qed.
 
-Theorem fp_structs_order_independent : forall a a' : analysis,
-  NoDup (map s_name (a_structs a)) -> Permutation (a_structs a) (a_structs a') -> fp_structs a = fp_structs a'.
-Proof. intros a a' Hnd Hp. unfold fp_structs. f_equal. f_equal.
+Theorem fp_structs_order_independent : forall root (a a' : analysis),
+  NoDup (map s_name (a_structs a)) -> Permutation (a_structs a) (a_structs a') -> fp_structs root a = fp_structs root a'.
+Proof. intros root a a' Hnd Hp. unfold fp_structs. f_equal. f_equal.
   apply isort_perm_invariant; [exact struct_leb_total|exact struct_leb_trans| |exact Hp].
   intros x y Hx Hy H1 H2. eapply nodup_key_inj; eauto. apply str_leb_antisym; auto. Qed.
 
@@ -173,12 +179,23 @@ Proof. intros H1 H2. apply perm_of_seq in H1. apply perm_of_seq in H2.
   { unfold pick. apply Permutation_map. eapply perm_trans; [apply Permutation_sym; exact H1|exact H2]. }
   unfold analyse. cbn [a_cmds a_structs]. split; apply Permutation_flat_map; exact Hp. Qed.
 
-(* the whole fingerprint is the same under every valid discovery order *)
+(* the whole fingerprint is the same under every valid discovery order, for projects whose events are
+   discovered in the same order under both (since C13-sort-before-use the files are analysed in sorted path
+   order, so the order is in fact unique; events are hashed in discovery order) *)
 Theorem fp_order_independent : forall (p : project) (c : config) (w1 w2 : sched),
   valid_sched w1 p c = true -> valid_sched w2 p c = true ->
-  NoDup (map cmd_key (a_cmds (analyse w1 p))) -> NoDup (map s_name (a_structs (analyse w1 p))) ->
+  NoDup (map (cmd_key (g_ppath c)) (a_cmds (analyse w1 p))) -> NoDup (map s_name (a_structs (analyse w1 p))) ->
+  u_events (analyse w1 p) = u_events (analyse w2 p) ->
   fp w1 p c = fp w2 p c.
-Proof. intros p c w1 w2 V1 V2 Hk Hs. unfold valid_sched in *.
+Proof. intros p c w1 w2 V1 V2 Hk Hs He. unfold valid_sched in *.
   apply andb_prop in V1. apply andb_prop in V2. destruct V1 as [V1 _], V2 as [V2 _].
   destruct (analyse_perm w1 w2 p V1 V2) as [Pc Ps]. unfold fp.
-  rewrite (fp_cmds_order_independent _ _ Hk Pc), (fp_structs_order_independent _ _ Hs Ps). reflexivity. Qed.
+  rewrite (fp_cmds_order_independent _ _ _ Hk Pc), (fp_structs_order_independent _ _ _ Hs Ps), He. reflexivity. Qed.
+
+Lemma files_names (p : project) (c : config) (w1 w2 : sched) :
+  u_events (analyse w1 p) = u_events (analyse w2 p) -> map fst (files w2 p c) = map fst (files w1 p c).
+Proof. intros He. unfold files.
+  assert (Hev : has_events (analyse w1 p) = has_events (analyse w2 p)).
+  { unfold u_events in He. apply TN_inj in He. unfold has_events.
+    destruct (a_events (analyse w1 p)), (a_events (analyse w2 p)); cbn [map] in He; try discriminate; reflexivity. }
+  rewrite Hev. destruct (has_events (analyse w2 p)), (g_viz c); reflexivity. Qed.
